@@ -766,7 +766,7 @@ static void collect(Sandbox& sb, int slot, const std::string& tag, int status, C
 	for (uint32_t i = 0; i < sim_sh->npath; ++i) r.paths[i] = sim_path_str(i);
 	for (int i = 0; i < r.info.nfaults; ++i) {
 		if (r.info.faults[i].fired) {
-			static const char* names[] = { "none", "io_error", "concurrent_change", "signal", "short_read" };
+			static const char* names[] = { "none", "io_error", "concurrent_change", "signal", "short_read", "corrupt_write" };
 			sb.fault_fired[names[r.info.faults[i].kind]] += r.info.faults[i].fired;
 		}
 	}
